@@ -265,8 +265,10 @@ def u_inner(ctx, u):
             T.close_pair(res)
     jobs = []
     for (side, call), n in sorted(msglen.items()):
-        if u['per_msg']:
+        if u['per_msg'] and n > 400:
             offs = sorted(set([0, 1, 2, 3, n - 1] + [rng.randrange(n) for _ in range(u['per_msg'] * u['nslices'])]))
+        elif u['per_msg']:
+            offs = range(n)          # short messages (EncryptedExtensions, CertificateRequest, CertificateVerify, Finished): every byte
         else:
             offs = range(n)
         for o in offs:
